@@ -139,7 +139,12 @@ func (sg *Getter) GetSamples(
 				if samples[i].IsEmpty() {
 					return errors.New("nil response")
 				}
-				return samples[i].Verify(header.DAH, request.RowIndex, request.ShareIndex)
+				if err := samples[i].Verify(header.DAH, request.RowIndex, request.ShareIndex); err != nil {
+					// a rejected sample must not survive in the result returned together with an error
+					samples[i] = shwap.Sample{}
+					return err
+				}
+				return nil
 			}
 			return sg.executeRequest(ctx, logger, header, request.Name(), req, verify)
 		})
